@@ -146,7 +146,7 @@ Section WithArith.
     call_new ar e x c l g m f i = (r, x') ->
     (ar_sound ar -> total x' <= total x) /\ (all_fp x -> all_fp x') /\ (rejected r -> x' = x).
   Proof.
-    unfold call_new. intros H.
+    unfold call_new. intros H. set (nxt := check _ _ _) in H; clearbody nxt.
     repeat (break_match_hyp; try inv_pair);
       try (split; [intros; lia | split; [auto | reflexivity]]).
     - (* registrar path *)
@@ -253,6 +253,7 @@ Section WithArith.
   Proof.
     unfold fp_ok, items_of, octets_of. intros [Hi Ho]. cbn [set_storage a_items a_octets a_lookups a_storage].
     pose proof (al_set_length bytes_eqb k v (a_storage s)). pose proof (stor_octets_set k v (a_storage s)).
+    pose proof (al_del_length bytes_eqb k (a_storage s)). pose proof (stor_octets_del k (a_storage s)).
     destruct (al_get bytes_eqb k (a_storage s)); lia.
   Qed.
 
